@@ -49,6 +49,7 @@ var (
 	out    = flag.String("out", "", "output directory (rewritten files + overlay.json)")
 	inject = flag.String("inject", "/verif/inject", "directory with files to add to packages (<pkgdir>/zz_*.go)")
 	record = flag.Bool("record", true, "insert plain-access recording (T6)")
+	recordAll = flag.Bool("recordall", true, "also record (race check only, no scheduling point) every other addressable non-struct field of the rewritten packages' own types")
 )
 
 // Packages rewritten (relative to the module root).
@@ -90,6 +91,9 @@ func main() {
 		fatalf("%v", err)
 	}
 	nfiles := 0
+	for _, p := range pkgs {
+		targetPkgPaths[p.PkgPath] = true
+	}
 	for _, p := range pkgs {
 		if len(p.Errors) > 0 {
 			fatalf("package %s has errors: %v", p.PkgPath, p.Errors)
@@ -256,6 +260,29 @@ func fieldKey(info *types.Info, sel *ast.SelectorExpr) string {
 	return n.Obj().Pkg().Name() + "." + n.Obj().Name() + "." + v.Name()
 }
 
+// targetPkgNames is filled from the loaded target packages.
+var targetPkgPaths = map[string]bool{}
+
+// quietRecordable: the selector is an addressable field, declared in one of
+// the rewritten packages, whose type is not a struct or array (those are
+// recorded at their leaves; sync and atomic objects are structs).
+func quietRecordable(info *types.Info, sel *ast.SelectorExpr) bool {
+	tv, ok := info.Types[sel]
+	if !ok || !tv.Addressable() {
+		return false
+	}
+	s := info.Selections[sel]
+	v := s.Obj().(*types.Var)
+	if v.Pkg() == nil || !targetPkgPaths[v.Pkg().Path()] {
+		return false
+	}
+	switch v.Type().Underlying().(type) {
+	case *types.Struct, *types.Array:
+		return false
+	}
+	return true
+}
+
 func rewriteFile(p *packages.Package, f *ast.File, rw *fileRW) {
 	info := p.TypesInfo
 	for _, d := range f.Decls {
@@ -303,6 +330,7 @@ func rewriteFile(p *packages.Package, f *ast.File, rw *fileRW) {
 
 	handled := map[ast.Node]bool{} // nodes whose text is replaced wholesale by an enclosing edit
 	written := map[ast.Expr]bool{} // expressions in write context
+	addrTaken := map[ast.Expr]bool{}
 	runtimeUses, finalizerUses := 0, 0
 
 	// First pass: find write contexts.
@@ -319,6 +347,7 @@ func rewriteFile(p *packages.Package, f *ast.File, rw *fileRW) {
 		case *ast.UnaryExpr:
 			if x.Op == token.AND {
 				written[unparen(x.X)] = true // address taken: treat as write (conservative) unless atomics
+				addrTaken[unparen(x.X)] = true
 			}
 		}
 		return true
@@ -473,6 +502,16 @@ func rewriteFile(p *packages.Package, f *ast.File, rw *fileRW) {
 					fn := "(*vrt.FR(&"
 					if written[x] {
 						fn = "(*vrt.FW(&"
+					}
+					rw.insert(x.Pos(), fn, 3)
+					rw.insert(x.End(), fmt.Sprintf(", %q, %q))", key, rw.site(x.Pos())), 6)
+				} else if key != "" && *recordAll && !addrTaken[x] && quietRecordable(info, x) {
+					// Every other field of the rewritten packages' own types:
+					// happens-before race check only (no scheduling point).
+					rw.useVrt = true
+					fn := "(*vrt.FRq(&"
+					if written[x] {
+						fn = "(*vrt.FWq(&"
 					}
 					rw.insert(x.Pos(), fn, 3)
 					rw.insert(x.End(), fmt.Sprintf(", %q, %q))", key, rw.site(x.Pos())), 6)
